@@ -66,6 +66,28 @@ HasZeroRow(P) == \E i \in 1..Rows(P) : \A j \in 1..Cols(P) : P[i][j] = 0
 HasZeroCol(P) == \E j \in 1..Cols(P) : \A i \in 1..Rows(P) : P[i][j] = 0
 MissingLine(P) == HasZeroRow(P) \/ HasZeroCol(P)
 
+(* Value classes: how the non-zero entries are filled.  The class of a     *)
+(* pattern is a statement about generic values WITHIN each of these        *)
+(* families as well (none of them forces a cancellation; a real symmetric  *)
+(* fill needs a symmetric pattern to be symmetric at all), so the contract *)
+(* of a case does not depend on its value class -- but an elimination may  *)
+(* (pivot choice by modulus vs. by real part, symmetric shortcuts, ...),   *)
+(* which is why the case list enumerates them.                             *)
+(*   generic    independent complex entries                                *)
+(*   real       purely real (resistive network, real instrument)           *)
+(*   imag       purely imaginary (lossless network: Z = jX, Y = jB)        *)
+(*   realsym    real and symmetric where the pattern is (reciprocal)       *)
+(*   phase      one common factor exp(j phi) times real entries            *)
+(*   mixed      every entry exactly real or exactly imaginary              *)
+(*   smalldiag  diagonal 2^-30 times smaller than the off-diagonal entries *)
+(*              (with the zero-diagonal patterns: pivoting is required)    *)
+ValueClasses == <<"generic", "real", "imag", "realsym", "phase", "mixed",
+                  "smalldiag">>
+IsValueClass(v) == \E i \in 1..Len(ValueClasses) : ValueClasses[i] = v
+Symmetric(P) == Rows(P) = Cols(P) /\
+                \A i \in 1..Rows(P), j \in 1..Cols(P) : P[i][j] = P[j][i]
+ZeroDiagonal(P) == Rows(P) = Cols(P) /\ \A i \in 1..Rows(P) : P[i][i] = 0
+
 (* row permutation, row scaling (scale classes never create or remove a    *)
 (* zero), transposition                                                    *)
 PermuteRows(P, p) == [i \in 1..Rows(P) |-> P[p[i]]]
